@@ -28,8 +28,8 @@ INITW = [0.0, 2.0, -2.0]
 
 
 def bounds(tier):
-    return {'full_product_depth': 3 if tier == 'quick' else 4,
-            'deviation_bound': 1 if tier == 'quick' else 2,
+    return {'full_product_depth': 3 if tier == 'quick' else '4 on the 2 base configurations with current data at rest, 3 on the other 6',
+            'deviation_bound': 1 if tier == 'quick' else '2 over 8 instants on 16 configurations (2 geometries x 4 topologies x 2 friction sides), 1 over 10 instants on all',
             'deviation_horizon': 6 if tier == 'quick' else 10,
             'duty_alphabet': DUTIES, 'load_alphabet_x_stall': LOADS,
             'geometries': 16, 'dts': DTS, 'initial_speeds': INITW}
@@ -186,23 +186,27 @@ def run_shard(shard, tier):
     acc = Acc()
     cover = collections.Counter()
     if shard['mode'] == 'full':
-        d = 3 if tier == 'quick' else 4
+        # thorough: depth 4 on the two base configurations with current data starting at rest, depth 3 on the others
+        d = 4 if (tier != 'quick' and shard['cfg']['cur'] and shard['cfg']['w'] == 0.0) else 3
         for rest in itertools.product(range(len(ENV)), repeat=d - 1):
             s = (shard['first'],) + rest
             check_case(acc, shard['cfg'], s, cover)
         acc.sample({'cfg': shard['cfg'], 'mode': 'full product', 'env_sequence': [ENV[i] for i in s]})
     else:
-        b = 1 if tier == 'quick' else 2
         hz = 6 if tier == 'quick' else 10
-        for cfg in shard['cfgs']:
-            for s in deviations(hz, len(ENV), b):
+        for ci, cfg in enumerate(shard['cfgs']):
+            # thorough: 2 deviations over 8 instants on the first configuration of the two geometries that carry all
+            # four topologies; 1 deviation over 10 instants everywhere else (quick: 1 over 6)
+            rich = tier != 'quick' and ci == 0 and (cfg['alpha'], cfg['beta']) in ((20.0, 10.0), (14.5, 5.0)) and cfg['side'] in ('lock', 'free')
+            b, h = (2, 8) if rich else (1, hz)
+            for s in deviations(h, len(ENV), b):
                 check_case(acc, cfg, s, cover)
             # continued runs: the held / moving state must carry over every split point
             for s in deviations(hz, len(ENV), 1):
                 if sum(1 for x in s if x) == 1 and s.index(max(s)) <= 2:
                     for split in range(3, hz - 1):
                         check_case(acc, cfg, s, cover, split=split)
-        acc.sample({'cfg': shard['cfgs'][0], 'mode': f'<= {b} deviations over {hz} instants',
+        acc.sample({'cfg': shard['cfgs'][0], 'mode': f'<= {b} deviations over {h} instants',
                     'env_sequence': [ENV[i] for i in s]})
     for k, v in cover.items():
         acc.coverage[('lock-automaton(was_held, sign D, sign w*, sign T_motor, held)', k)] += v
